@@ -373,3 +373,27 @@ theorem C05_qr_worker_legs {α : Type} [Zero α] [One α] [Mul α] (a : BMat α)
   simp only [w, qrWorker]
   split <;> refine ⟨⟨_, rfl⟩, rfl, rfl, rfl, rfl, rfl, ?_⟩ <;>
     simp [Leg.testContractible, Leg.testEqual, Leg.eq?, Leg.conj]
+
+/-- non-vacuity of `C05_qr_inner_leg` / `C05_qr_worker_legs`: `Z_3`, non-zero `a.qtotal`, requested `qtotal_Q` not reduced
+modulo 3, `inner_qconj = -1`, a sector without stored block, a wide and a tall block; reduced and complete mode: the
+model's `Q`, `R` pass the executable sanity check (charge rule, shapes), are contractible and have the total charges
+`make_valid(qtotal_Q)` and `make_valid(a.qtotal - qtotal_Q)`. -/
+example :
+    let a : BMat Int :=
+      { leg0 := { mods := [3], slices := [0, 1, 3, 4], charges := [[0], [1], [2]], qconj := 1,
+                  sorted := true, bunched := true },
+        leg1 := { mods := [3], slices := [0, 2, 3], charges := [[2], [0]], qconj := -1,
+                  sorted := false, bunched := true },
+        qtotal := [1], blocks := [⟨1, 1, [[1], [2]]⟩, ⟨0, 0, [[3, 4]]⟩] }
+    let Fr : Nat → Blk Int → Mat Int × Mat Int := fun i _ => if i = 0 then ([[1], [0]], [[5]]) else ([[1]], [[3, 4]])
+    let Fc : Nat → Blk Int → Mat Int × Mat Int :=
+      fun i _ => if i = 0 then ([[1, 0], [0, 1]], [[5], [0]]) else ([[1]], [[3, 4]])
+    let wr := qrWorker a Fr id id { qtotalQ := some [5], innerQconj := -1 }
+    let wc := qrWorker a Fc id id { complete := true, qtotalQ := some [5], innerQconj := -1 }
+    a.sane = true
+    ∧ (wr.q.sane && wr.r.sane && wr.q.leg1.testContractible wr.r.leg0 && wr.q.qtotal == [2] && wr.r.qtotal == [2]
+        && wr.r.leg0.qconj == -1 && wr.q.qdata == [(1, 1), (0, 0)] && wr.r.leg0.slices == [0, 1, 2]) = true
+    ∧ (wc.q.sane && wc.r.sane && wc.q.leg1.testContractible wc.r.leg0 && wc.q.qtotal == [2] && wc.r.qtotal == [2]
+        && wc.q.qdata == [(1, 1), (0, 0), (2, 2)] && wc.q.toDense == [[1, 0, 0, 0], [0, 1, 0, 0], [0, 0, 1, 0], [0, 0, 0, 1]])
+        = true := by
+  decide
